@@ -67,7 +67,12 @@ func (fx *FuncExec) ghostAfter(st *State, s ast.Stmt, before bool) {
 		if !strings.HasPrefix(txt, strings.Join(strings.Fields(ac.Match), " ")) {
 			continue
 		}
-		fk := fmt.Sprintf("%s|%v|%s|%s|%s", ac.Match, ac.Assert, ac.Var, ac.Label, ac.Text)
+		// clauses of one group (same statement prefix, same ghost variable or same
+		// label up to a trailing number) attach to successive matching statements
+		fk := fmt.Sprintf("%s|%v|%s|%s", ac.Match, ac.Assert, ac.Var, strings.TrimRight(ac.Label, "0123456789"))
+		if ac.Label == "" && ac.Assert {
+			fk += "|" + ac.Text
+		}
 		if firedHere[fk] {
 			continue
 		}
@@ -992,7 +997,7 @@ func (fx *FuncExec) execRange(st *State, s *ast.RangeStmt) *State {
 		}
 		if valVar != nil && !isInt {
 			comp := fx.reg.sliceComp(elemT)
-			ev := Term{S: sel(sel(fx.H(bodySt, comp), "(sref "+coll.S+")"), "(+ (soff "+coll.S+") "+i+")"), Sort: fx.reg.SortOf(elemT), T: elemT}
+			ev := Term{S: sel(sel(fx.H(bodySt, comp), "(sref "+coll.S+")"), "(sidx (soff "+coll.S+") "+i+")"), Sort: fx.reg.SortOf(elemT), T: elemT}
 			fx.defineOrAssign(bodySt, valVar, ev, s.Tok == token.DEFINE)
 		}
 		// the index the body is working on stays available as idxN; increment happens at the back edge
